@@ -178,6 +178,17 @@ def run_scenario(sc, base, fast=True, mode='each', real_passes=None, on_test=Non
         prepare(work)
     o.before = snapshot_dir(work)
     o.cwd_before = os.getcwd()
+    o.cwd_after = None
+
+    def note_cwd():
+        # where the code under test left the process (recorded the first time it differs), then back to the working directory
+        try:
+            here = os.getcwd()
+        except OSError:
+            here = '<a directory that no longer exists>'
+        if o.cwd_after is None and here != o.cwd_before:
+            o.cwd_after = here
+        os.chdir(work)
     old_stdin = sys.stdin
     if sc.get('keys'):
         # keys typed by the user while C-Vise runs ('s' = skip the rest of this pass, 'd' = toggle diffs): the key logger is on
@@ -233,7 +244,7 @@ def run_scenario(sc, base, fast=True, mode='each', real_passes=None, on_test=Non
             def joint():
                 res = []
                 for n in order:
-                    with open(n, 'rb') as f:
+                    with open(os.path.join(work, n), 'rb') as f:      # (not relative: the code under test may have moved the process)
                         res.append(f.read())
                 return res
 
@@ -281,6 +292,7 @@ def run_scenario(sc, base, fast=True, mode='each', real_passes=None, on_test=Non
                         code = EXC_CODES.get(type(e).__name__, 50)
                         if isinstance(e, shim.Budget):
                             o.diverged = True
+                    note_cwd()
                         # the statistics object refuses the next start() after an aborted pass
                         stats.last_pass_name = None
                     w1, f1, e1 = stat_of(p)
@@ -323,6 +335,7 @@ def run_scenario(sc, base, fast=True, mode='each', real_passes=None, on_test=Non
                     code = EXC_CODES.get(type(e).__name__, 50)
                     if isinstance(e, shim.Budget):
                         o.diverged = True
+                note_cwd()
                 b, x = counts()
                 d = joint()
                 o.final = d
@@ -342,10 +355,11 @@ def run_scenario(sc, base, fast=True, mode='each', real_passes=None, on_test=Non
             except OSError:
                 pass
             sys.stdin = old_stdin
-        try:
-            o.cwd_after = os.getcwd()
-        except OSError:
-            o.cwd_after = '<a directory that no longer exists>'
+        if o.cwd_after is None:
+            try:
+                o.cwd_after = os.getcwd()
+            except OSError:
+                o.cwd_after = '<a directory that no longer exists>'
         os.chdir(old_cwd)
         tempfile.tempdir = old_tmp
         os.environ['TMPDIR'] = old_tmp or '/tmp'
